@@ -47,6 +47,9 @@ Section Mon.
   Definition once_ok (u v : view) : bool :=
     forallb (fun n => negb (injected_node n) || in_alarm n || is_blank n
                       || ((negb (started (vst u n)) || started (vst v n)) && (negb (completed (vst u n)) || completed (vst v n)))) all_nodes.
+  (* an injected line is completed by running: a line that is completed has started (it was not skipped) *)
+  Definition ran_ok (v : view) : bool :=
+    forallb (fun n => negb (injected_node n) || is_blank n || negb (completed (vst v n)) || started (vst v n) || failed (vst v n)) all_nodes.
   Definition inert_ok (injected : list nat) (v : view) : bool :=
     forallb (fun n => negb (injected_node n) || existsb (Nat.eqb (root_of n)) injected
                       || (negb (started (vst v n)) && negb (completed (vst v n)))) all_nodes.
@@ -67,7 +70,7 @@ Section Mon.
     match ts, vs with
     | j :: ts', v :: vs' =>
         let inj' := inj ++ j_inject j in
-        once_ok u v && inert_ok inj' v && inj_end_ok v
+        once_ok u v && inert_ok inj' v && inj_end_ok v && ran_ok v
         && match ws with
            | w :: ws' => (negb compare || method_ok w v) && walk compare v inj' ts' ws' vs'
            | [] => walk compare v inj' ts' [] vs'
